@@ -129,6 +129,80 @@ theorem batch_le_cap {w req pct : Nat} (hp : pct ≤ 100)
   rw [Nat.mul_comm]
   exact Nat.mul_le_mul_right _ hp
 
+/-! ### the repaired constructor (`_checked_capacity`): reject instead of wrapping -/
+
+theorem half_max64 : (2 ^ 64 - 1) >>> 1 = 2 ^ 63 - 1 := by decide
+
+/-- the constructor throws iff the rounded capacity is `2^63` or more -/
+theorem ctorRejects_iff (w req : Nat) : ctorRejects true w req = true ↔ 2 ^ 63 ≤ nextPow2W w req := by
+  simp only [ctorRejects, Bool.true_and, decide_eq_true_eq, half_max64]; omega
+
+theorem ctorRejects_false (w req : Nat) : ctorRejects false w req = false := by simp [ctorRejects]
+
+/-- only `size_t`-wide queues can be rejected, and exactly for requests above `2^62` -/
+theorem ctorRejects_64_iff (req : Nat) : ctorRejects true 64 req = true ↔ 2 ^ 62 < req := by
+  rw [ctorRejects_iff]
+  constructor
+  · intro h
+    apply Nat.lt_of_not_le
+    intro hle
+    have := (nextPow2W_isNext (w := 64) (n := req) (by decide) (by omega)).2.2 62 hle
+    omega
+  · intro h
+    have := (alloc_wraps_to_zero (pct := 0) h).1
+    simp only [boundedCtor] at this
+    omega
+
+theorem ctorRejects_narrow {w : Nat} (hw : 1 ≤ w) (hw63 : w ≤ 63) (req : Nat) : ctorRejects true w req = false := by
+  apply Bool.eq_false_iff.mpr
+  intro h
+  have h1 := (ctorRejects_iff w req).mp h
+  obtain ⟨j, hj, hc⟩ := nextPow2W_pow2 hw req
+  rw [hc] at h1
+  have : j < 63 := by omega
+  have := Nat.pow_lt_pow_right (a := 2) (by decide) this
+  omega
+
+/-- **every accepted request has exactly `2·capacity` bytes of storage** (any width) -/
+theorem accepted_alloc_exact {w req pct : Nat} {c : BoundedCtor} (h : boundedCtorR true w req pct = some c) :
+    c.allocBytes = 2 * c.capacity := by
+  simp only [boundedCtorR] at h
+  split at h
+  · exact absurd h (by simp)
+  · rename_i hr
+    have hlt : nextPow2W w req < 2 ^ 63 := by
+      apply Nat.lt_of_not_le
+      intro hge
+      exact hr ((ctorRejects_iff w req).mpr hge)
+    simp only [Option.some.injEq] at h
+    subst h
+    exact (alloc_exact_iff w req pct).mpr hlt
+
+theorem handleFullR_false (cap n maxCap : Nat) : handleFullR false cap n maxCap = handleFull cap n maxCap := by
+  simp only [handleFullR, ctorRejects_false]
+  split <;> simp_all
+
+/-- with the repair no node of capacity `2^63` (or more) is ever built by `_handle_full_queue` -/
+theorem handleFullR_alloc_lt {cap n maxCap c : Nat} (h : handleFullR true cap n maxCap = .alloc c) : c < 2 ^ 63 := by
+  simp only [handleFullR] at h
+  split at h
+  · rename_i c' _
+    split at h
+    · exact absurd h (by simp)
+    · rename_i hr
+      injection h with h
+      subst h
+      apply Nat.lt_of_not_le
+      intro hge
+      -- `c'` was produced by `nextPow2W 64 _` inside `handleFull`, but all we need is the rejection test itself
+      have : ctorRejects true 64 c' = true ↔ 2 ^ 63 ≤ nextPow2W 64 c' := ctorRejects_iff 64 c'
+      by_cases hs : 2 ^ 63 ≤ c'
+      · have : nextPow2W 64 c' = 2 ^ 63 := nextPow2W_sat (by decide) hs
+        exact hr ((ctorRejects_iff 64 c').mpr (by omega))
+      · omega
+  · rename_i hx
+    cases hh : handleFull cap n maxCap <;> simp_all
+
 /-! ### `_handle_full_queue`: the doubling loop on 64-bit values -/
 
 theorem hfLoop_zero (n : Nat) (hn : 0 < n) : ∀ fuel, hfLoop fuel 0 n = none := by
